@@ -16,6 +16,9 @@ pub trait DynFilt {
     fn guts(self: Box<Self>) -> Box<dyn DynFilt>;
     fn cfg(&self) -> Vec<Rat>;
     fn cached(&self) -> Option<Option<Vec<Rat>>> { None }
+    fn as_any(&self) -> &dyn std::any::Any;
+    /// Clone::clone_from(&mut self, other) -- other must be the same entry
+    fn assign_from(&mut self, other: &dyn DynFilt);
 }
 /// entry!(Name, FilterType, |f, i| -> Vec<Rat> step, |f| -> Vec<Rat> config, [cached expr])
 macro_rules! entry {
@@ -27,6 +30,8 @@ macro_rules! entry {
             fn clone_box(&self) -> Box<dyn DynFilt> { Box::new($name(self.0.clone())) }
             fn guts(self: Box<Self>) -> Box<dyn DynFilt> { Box::new($name(<$ty>::from_guts(self.0.into_guts()))) }
             fn cfg(&self) -> Vec<Rat> { let $g = &self.0; $cfg }
+            fn as_any(&self) -> &dyn std::any::Any { self }
+            fn assign_from(&mut self, o: &dyn DynFilt) { let o = o.as_any().downcast_ref::<$name>().expect("same entry"); self.0.clone_from(&o.0); }
             $( fn cached(&self) -> Option<Option<Vec<Rat>>> { let $h = &self.0; Some($cached) } )?
         }
     };
@@ -69,6 +74,8 @@ impl DynFilt for EUnitInt {
     fn clone_box(&self) -> Box<dyn DynFilt> { Box::new(EUnitInt(self.0.clone())) }
     fn guts(self: Box<Self>) -> Box<dyn DynFilt> { Box::new(EUnitInt(sf::unit_system::UnitSystem::from_guts(self.0.into_guts()))) }
     fn cfg(&self) -> Vec<Rat> { vec![] }
+    fn as_any(&self) -> &dyn std::any::Any { self }
+    fn assign_from(&mut self, o: &dyn DynFilt) { let o = o.as_any().downcast_ref::<EUnitInt>().expect("same entry"); self.0.clone_from(&o.0); }
 }
 /// (registry index in Model/Registry.v, config as the model reads it, filter)
 pub fn build(name: &str, c: &[Rat]) -> Option<(usize, Vec<Rat>, Box<dyn DynFilt>)> {
@@ -118,7 +125,7 @@ pub fn catalogue() -> Vec<(&'static str, Vec<Vec<Rat>>, usize)> {
          ("threshold", vec![vec![q(1, 1), q(10, 1), q(20, 1)]], 1), ("schmitt", vec![vec![q(0, 1), q(1, 1), q(10, 1), q(20, 1)], vec![q(2, 1), q(0, 1), q(-1, 1), q(1, 1)]], 1),
          ("debounce", vec![vec![q(2, 1), q(2, 1), q(10, 1), q(20, 1)]], 1), ("slopes", vec![vec![]], 1), ("peaks", vec![vec![]], 1),
          ("convolve3", vec![vec![q(1, 2), q(-1, 1), q(2, 1)]], 1), ("delay2", vec![vec![]], 1), ("differentiate", vec![vec![]], 1), ("integrate", vec![vec![]], 1),
-         ("hampel3", vec![vec![q(2, 1)], vec![q(1, 2)]], 1), ("alpha_beta", vec![vec![q(1, 2), q(1, 4)]], 1), ("kalman", vec![vec![q(1, 1), q(1, 1), q(1, 1), q(0, 1), q(1, 1)], vec![q(1, 2), q(2, 1), q(1, 2), q(1, 1), q(2, 1)]], 1),
+         ("hampel3", vec![vec![q(2, 1)], vec![q(1, 2)], vec![q(-2, 1)]], 1), ("alpha_beta", vec![vec![q(1, 2), q(1, 4)]], 1), ("kalman", vec![vec![q(1, 1), q(1, 1), q(1, 1), q(0, 1), q(1, 1)], vec![q(1, 2), q(2, 1), q(1, 2), q(1, 1), q(2, 1)]], 1),
          ("analyze2", vec![vec![q(1, 2), q(1, 2), q(1, 2), q(-1, 2)]], 1), ("synthesize2", vec![vec![q(1, 2), q(1, 2), q(-1, 2), q(1, 2)]], 2),
          ("cache_integrate", vec![vec![]], 1), ("cache_median3", vec![vec![]], 1), ("unit_integrate", vec![vec![]], 1), ("peaks_slopes", vec![vec![]], 1)]
 }
@@ -257,7 +264,7 @@ pub fn gen20(tier: &str, rng: &mut Rng) -> Vec<Spec> {
         v.push(Spec::new("cache_source").with("xs", join(&items)).with("ops", join(&ops))); } } }
     for (name, cfgs, arity) in catalogue() { for cfg in &cfgs { for (i, (h, a)) in hists(rng, t, arity).into_iter().enumerate() {
         let b: Vec<Rat> = a.iter().rev().map(|x| *x + Rat::int(1)).collect();
-        v.push(Spec::new("copy").with("entry", name).with("cfg", join_rats(cfg)).with("mode", if i % 2 == 0 { "clone" } else { "guts" }).with("xs", join_rats(&h)).with("ys", join_rats(&a)).with("zs", join_rats(&b))); } } }
+        v.push(Spec::new("copy").with("entry", name).with("cfg", join_rats(cfg)).with("mode", ["clone", "guts", "clonefrom"][i % 3]).with("pre", join_rats(&h.iter().rev().map(|x| *x + Rat::int(2)).chain(a.iter().cloned()).collect::<Vec<Rat>>())).with("xs", join_rats(&h)).with("ys", join_rats(&a)).with("zs", join_rats(&b))); } } }
     v
 }
 pub fn exec20(s: &Spec, stats: &mut Stats) -> Outcome {
@@ -276,7 +283,10 @@ pub fn exec20(s: &Spec, stats: &mut Stats) -> Outcome {
     let r = catch(|| {
         let oh = run_on(&mut f, &hist)?;
         let cached = f.cached();
-        let mut copy = if mode == "clone" { f.clone_box() } else { let c = f.clone_box(); c.guts() };
+        let mut copy = if mode == "clone" { f.clone_box() } else if mode == "guts" { let c = f.clone_box(); c.guts() } else {
+            // a destination that has already seen other samples is overwritten in place by Clone::clone_from
+            let mut dst = build(name, &cfg).unwrap().2; let pre = if s.has("pre") { enc_in(&s.rats("pre"), arity) } else { vec![] };
+            run_on(&mut dst, &pre)?; dst.assign_from(f.as_ref()); dst };
         let oa = run_on(&mut f, &ca)?;            // the original first ...
         let ob = run_on(&mut copy, &cb)?;         // ... then the copy, on a different continuation
         let mut ra = build(inner, &cfg).unwrap().2; run_on(&mut ra, &hist)?; let refa = run_on(&mut ra, &ca)?;
